@@ -149,6 +149,11 @@ def check_message(L, case, kw, msg, selfobj=None):
         m = re.search(r"(?:^|\n|: )%s was (.*)$" % re.escape(expr), msg, re.M)
         if m:
             out.append(("C20.R4", "line-for-unrepresentable-value", {"case": case["id"], "expression": expr, "line": m.group(0)[:120]}))
+    if case.get("cond_text") is not None:
+        # a condition that is not a lambda is named, not rendered: neither its bound arguments nor its address belong in the message
+        head = lines[1] if len(lines) > 1 else ""
+        if not (head == case["cond_text"] + ":" or head.startswith(case["cond_text"] + ": ")):
+            out.append(("C20.R3", "condition-text-of-named-condition", {"case": case["id"], "shown": head[:160], "len": len(head)}))
     for ph, flag in (("_ARGS", "names_args"), ("_KWARGS", "names_kwargs")):
         m = re.search(r"(?:^|\n|: )%s was " % ph, msg, re.M)
         if m and not case.get(flag):
